@@ -23,6 +23,7 @@ class RawNode(Node):
     def __init__(self, token: TokenT, text: str) -> None:
         super().__init__(token)
         self.text = text
+        self.blank = not text or text.isspace()
 
     def __str__(self) -> str:
         assert isinstance(self.token, RawToken)
